@@ -201,9 +201,128 @@ pub fn run(ctx: &mut Ctx) {
         }
         Err(e) => { let c = Case::new("prim-model"); ctx.model_fail(e, &c, None); }
     }
+    block_ties(ctx, &prims);
     // end to end with mixed engines: reuse the C01 generator at a smaller scale
     let save = ctx.tier.clone();
     ctx.tier = if thorough { "quick".into() } else { "mini".into() };
     crate::props::c01::run_scaled(ctx, if thorough { 600 } else { 120 }, if thorough { 40 } else { 10 }, false);
     ctx.tier = save;
+}
+
+fn hex(b: &[[u8; 64]]) -> String {
+    crate::objs::to_hex(&b.iter().flat_map(|x| x.iter().cloned()).collect::<Vec<u8>>())
+}
+
+fn structured_block(ctx: &mut Ctx) -> [u8; 64] {
+    let mut b = [0u8; 64];
+    b.copy_from_slice(&ctx.rng.bytes(64));
+    match ctx.rng.below(6) {
+        0 => b = [0u8; 64],
+        1 => {
+            // 16-byte fields zero
+            let mask = ctx.rng.below(16);
+            for (j, x) in b.iter_mut().enumerate() { if mask >> (j / 16) & 1 == 1 { *x = 0; } }
+        }
+        2 => { let v = ctx.rng.below(256) as u8; b = [v; 64]; }
+        3 => { for x in b.iter_mut().skip(32) { *x = 0; } }
+        _ => {}
+    }
+    b
+}
+
+/// Ties of the block-level and flat-memory models (Model/SimdBlock.lean, Model/Flat.lean) to the code:
+/// per engine family, `mul` on one block and a size-2 fft / ifft on one block pair against the
+/// transliterated kernel of THAT family; size-2 transforms on multi-block flat memory against
+/// `Flat.fftBfly` / `ifftBfly`; which blocks the accessors of `ShardsRefMut` expose and when they panic.
+fn block_ties(ctx: &mut Ctx, prims: &[(String, Box<dyn Prims>)]) {
+    use reed_solomon_simd::engine::ShardsRefMut;
+    let thorough = ctx.thorough();
+    let mut q: Vec<String> = vec![];
+    let mut want: Vec<String> = vec![];
+    let fams: Vec<&(String, Box<dyn Prims>)> = prims.iter().filter(|(n, _)| ["nosimd", "ssse3", "avx2", "neon"].contains(&n.as_str())).collect();
+    let n_k = if thorough { 4000 } else { 300 };
+    for i in 0..n_k {
+        let (name, p) = fams[i % fams.len()];
+        // multiply
+        let m: u16 = match ctx.rng.below(8) { 0 => 0, 1 => 1, 2 => 65534, 3 => 65535, _ => ctx.rng.below(65536) as u16 };
+        let x = structured_block(ctx);
+        let mut y = vec![x];
+        p.mul(&mut y, m);
+        q.push(format!("T kmul {} {} {}", name, m, hex(&[x])));
+        want.push(hex(&y));
+        // size-2 transform on one block pair
+        let inverse = ctx.rng.chance(1, 2);
+        let delta = match ctx.rng.below(4) { 0 => (1usize << ctx.rng.range(0, 15)) - 0, 1 => 0, _ => ctx.rng.below(65535) };
+        let (a, b) = (structured_block(ctx), structured_block(ctx));
+        let mut d = vec![a, b];
+        if inverse { p.ifft(&mut d, 2, 1, 0, 2, 2, delta); } else { p.fft(&mut d, 2, 1, 0, 2, 2, delta); }
+        q.push(format!("T kbfly {} {} {} {} {}", name, if inverse { "ifft" } else { "fft" }, delta, hex(&[a]), hex(&[b])));
+        want.push(format!("{} {}", hex(&d[0..1]), hex(&d[1..2])));
+        ctx.count("block_tie", "kernel");
+    }
+    // flat memory: size-2 transform somewhere inside count x len64 blocks
+    let n_f = if thorough { 2000 } else { 200 };
+    for i in 0..n_f {
+        let (_, p) = &prims[i % prims.len()];
+        let len64 = ctx.rng.range(1, 4);
+        let count = ctx.rng.range(2, 6);
+        let pos = ctx.rng.below(count - 1);
+        let delta = if ctx.rng.chance(1, 4) { (1usize << ctx.rng.range(0, 15)).saturating_sub(pos).min(65534) } else { ctx.rng.below(65534 - pos) };
+        let data: Vec<[u8; 64]> = (0..count * len64).map(|_| structured_block(ctx)).collect();
+        let inverse = ctx.rng.chance(1, 2);
+        let mut d = data.clone();
+        if inverse { p.ifft(&mut d, count, len64, pos, 2, 2, delta + pos); } else { p.fft(&mut d, count, len64, pos, 2, 2, delta + pos); }
+        // skew index of the only butterfly: r + dist + skew_delta - 1 with r = 0, dist = 1
+        q.push(format!("T flatbfly {} {} {} {} {} {}", if inverse { "ifft" } else { "fft" }, count, len64, pos, delta + pos, hex(&data)));
+        want.push(hex(&d));
+        ctx.count("block_tie", "flat-butterfly");
+    }
+    // accessors: exposed blocks and panics
+    let n_v = if thorough { 6000 } else { 600 };
+    for _ in 0..n_v {
+        let len64 = ctx.rng.range(1, 3);
+        let count = ctx.rng.range(1, 9);
+        let a = ctx.rng.below(count + 3);
+        let b = ctx.rng.below(count + 3);
+        let op = *ctx.rng.pick(&["index", "dist2", "dist4", "zero", "zerofrom", "split"]);
+        let mut data: Vec<[u8; 64]> = (0..count * len64).map(|j| [(j % 251) as u8; 64]).collect();
+        let show = |v: &[[u8; 64]]| v.iter().map(|x| x[0].to_string()).collect::<Vec<_>>().join(",");
+        let r = std::panic::catch_unwind(std::panic::AssertUnwindSafe(|| {
+            let mut s = ShardsRefMut::new(count, len64, &mut data);
+            match op {
+                "index" => show(&s[a]),
+                "dist2" => { let (x, y) = s.dist2_mut(a, b); format!("{};{}", show(x), show(y)) }
+                "dist4" => { let (x, y, z, w) = s.dist4_mut(a, b); format!("{};{};{};{}", show(x), show(y), show(z), show(w)) }
+                "zero" => { s.zero(a..b); drop(s); String::new() }
+                "zerofrom" => { s.zero(a..); drop(s); String::new() }
+                _ => {
+                    let (l, r) = s.split_at_mut(a);
+                    let (lc, rc) = (l.len(), r.len());
+                    let lv: Vec<String> = (0..lc).map(|i| show(&l[i])).filter(|x| !x.is_empty()).collect();
+                    let rv: Vec<String> = (0..rc).map(|i| show(&r[i])).filter(|x| !x.is_empty()).collect();
+                    format!("{}:{};{}:{}", lc, lv.join(","), rc, rv.join(","))
+                }
+            }
+        }));
+        let ans = match r {
+            Ok(sv) if op == "zero" || op == "zerofrom" => { let _ = sv; show(&data) }
+            Ok(sv) => sv,
+            Err(_) => "panic".to_string(),
+        };
+        q.push(format!("T flatview {} {} {} {} {}", op, count, len64, a, b));
+        want.push(ans);
+        ctx.count("block_tie", op);
+    }
+    match ctx.model_eval(&q) {
+        Ok(ans) => {
+            for ((l, a), w) in q.iter().zip(ans.iter()).zip(want.iter()) {
+                if a != w {
+                    let case = Case { name: "block-tie".into(), lines: vec![l.clone()], with_model: true };
+                    ctx.model_fail(format!("block-level model answers `{}` but the implementation gives `{}` for `{}`", crate::ctx::short(a), crate::ctx::short(w), crate::ctx::short(l)), &case, None);
+                }
+            }
+        }
+        Err(e) => { let c = Case::new("block-tie"); ctx.model_fail(e, &c, None); }
+    }
+    ctx.bump("block_level_model_lines", q.len());
 }
